@@ -72,3 +72,41 @@ Proof.
   - eapply rsdp_sums_len; eauto. - eapply rsdp_sums_len; eauto.
   - eapply facs_len; eauto. - eapply facs_len; eauto.
 Qed.
+
+(* ------------------------------------------------------------------------------------------------
+   C01 / C02 for the tables with their own state machines: RQSC (controllers with nested resources), FADT (builder calls),
+   SLIT (cell assignments), HEST histories interleaved with stand-alone structures *)
+From ACPI Require Import Impl.Rqsc Impl.Fadt Impl.Slit Impl.Hest Proofs.RqscP Proofs.FadtP Proofs.SlitP.
+
+Definition special_sum_statement : Prop :=
+  (forall md c ops s0 s, rqsc_new c = Some s0 -> rqsc_run md s0 ops = Some s -> sum8 (rqsc_image s) = 0) /\
+  (forall md c ops f0 f, fadt_new c = Some f0 -> fadt_run md f0 ops = Some f -> sum8 (fadt_image f) = 0) /\
+  (forall md c ops s0 s, slit_new c = Some s0 -> slit_run md s0 ops = Some s -> sum8 (slit_image s) = 0) /\
+  (forall md c ops t0 s, hest_new c = Some t0 -> hest_run md {| hs_tbl := t0; hs_alone := None |} ops = Some s ->
+                         N.of_nat (length (tbl_image (hs_tbl s))) < 2 ^ 32 -> sum8 (tbl_image (hs_tbl s)) = 0).
+
+Lemma special_sum : special_sum_statement.
+Proof.
+  unfold special_sum_statement. repeat split; intros.
+  - eapply rqsc_history; eauto. - eapply fadt_history; eauto. - eapply slit_correct_all; eauto.
+  - eapply hest_history_table; eauto.
+Qed.
+
+Definition special_len_statement : Prop :=
+  (forall md c ops s0 s, rqsc_new c = Some s0 -> rqsc_run md s0 ops = Some s ->
+                         N.of_nat (length (rqsc_image s)) < 2 ^ 32 ->
+                         field_at (rqsc_image s) 4 4 = N.of_nat (length (rqsc_image s))) /\
+  (forall md c ops f0 f, fadt_new c = Some f0 -> fadt_run md f0 ops = Some f ->
+                         field_at (fadt_image f) 4 4 = N.of_nat (length (fadt_image f))) /\
+  (forall md c ops s0 s, slit_new c = Some s0 -> slit_run md s0 ops = Some s ->
+                         field_at (slit_image s) 4 4 = N.of_nat (length (slit_image s))) /\
+  (forall md c ops t0 s, hest_new c = Some t0 -> hest_run md {| hs_tbl := t0; hs_alone := None |} ops = Some s ->
+                         N.of_nat (length (tbl_image (hs_tbl s))) < 2 ^ 32 ->
+                         field_at (tbl_image (hs_tbl s)) 4 4 = N.of_nat (length (tbl_image (hs_tbl s)))).
+
+Lemma special_len : special_len_statement.
+Proof.
+  unfold special_len_statement. repeat split; intros.
+  - eapply rqsc_history; eauto. - eapply fadt_history; eauto. - eapply slit_correct_all; eauto.
+  - eapply hest_history_table; eauto.
+Qed.
